@@ -16,6 +16,7 @@ from pbt import gens
 from pybrops.breed.prot.mate import util as mate_util
 from pybrops.core.util import mate as core_mate
 from pybrops.popgen.gmap.StandardGeneticMap import StandardGeneticMap
+from pybrops.popgen.gmap.ExtendedGeneticMap import ExtendedGeneticMap
 from pybrops.popgen.gmap.HaldaneMapFunction import HaldaneMapFunction
 from pybrops.popgen.gmap.KosambiMapFunction import KosambiMapFunction
 from pybrops.popgen.gmat.DensePhasedGenotypeMatrix import DensePhasedGenotypeMatrix
@@ -126,9 +127,17 @@ def realise_layout(lay, n_taxa):
                 k += 1
         # the map is handed to pybrops in shuffled row order
         perm = numpy.random.RandomState(lay["shuffle_seed"]).permutation(p)
-        gmap = StandardGeneticMap(vrnt_chrgrp=numpy.array(chrgrp, dtype="int64")[perm],
-                                  vrnt_phypos=numpy.array(phypos, dtype="int64")[perm],
-                                  vrnt_genpos=numpy.array(genpos, dtype="float64")[perm])
+        # ... through either genetic-map class, grouped by the constructor or left in file order (derived from the
+        # shuffle seed so that earlier replay files keep their meaning: seed % 4 == 0 is the original form)
+        form = lay["shuffle_seed"] % 4
+        mc, mx, mg = (numpy.array(chrgrp, dtype="int64")[perm], numpy.array(phypos, dtype="int64")[perm],
+                      numpy.array(genpos, dtype="float64")[perm])
+        if form == 0:
+            gmap = StandardGeneticMap(vrnt_chrgrp=mc, vrnt_phypos=mx, vrnt_genpos=mg)
+        elif form == 1:
+            gmap = StandardGeneticMap(vrnt_chrgrp=mc, vrnt_phypos=mx, vrnt_genpos=mg, auto_group=False)
+        else:
+            gmap = ExtendedGeneticMap(mc, mx, mx + 1, mg, auto_group=(form == 2))
         pg = DensePhasedGenotypeMatrix(mat=mat, **kw)
         pg.group_vrnt()
         pg.interp_xoprob(gmap, HaldaneMapFunction() if lay["mode"] == "haldane" else KosambiMapFunction())
